@@ -63,10 +63,24 @@ def run(report, tier, seed):
         names = gen.rand_names(rng, 3)
         with numpoly.global_options(retain_names=True, retain_coefficients=False):
             p = gen.rand_poly(rng, shape, names, nterms=rng.choice([0, 1, 2, 3, 4]), maxexp=3, dtype=numpy.int64, raw=False)
+            if rng.random() < 0.2:
+                # narrow integer coefficient dtypes with coefficients near the end of their range: the formal
+                # derivative (coefficient times exponent) must not wrap
+                narrow = rng.choice([numpy.int8, numpy.int16, numpy.uint8])
+                scale = {numpy.int8: 40, numpy.int16: 10000, numpy.uint8: 80}[narrow]
+                cs = [(numpy.abs(numpy.asarray(c)) if narrow is numpy.uint8 else numpy.asarray(c)) * scale for c in p.coefficients]
+                p = numpoly.polynomial_from_attributes(p.exponents, [c.astype(narrow) for c in cs], p.names)
+        special = rng.random() < 0.15
+        if special:
+            # names whose numeric and string orders differ, low exponents (a derivative can remove an indeterminate
+            # completely), differentiated successively by position
+            with numpoly.global_options(retain_names=True, retain_coefficients=False):
+                p = gen.rand_poly(rng, shape, rng.choice([(2, 10), (3, 10), (2, 3, 10), (1, 10, 11)]), nterms=rng.choice([1, 2]),
+                                  maxexp=1, dtype=numpy.int64, raw=False)
         lay = core.poly_layout(p)
         size = int(numpy.prod(shape)) if shape else 1
         o = settings[k % 16] if rng.random() < 0.7 else settings[1 * 4]      # defaults: retain_names on
-        kind = rng.choice(["name", "name", "index", "poly", "gradient", "hessian", "multi"])
+        kind = "multi" if special else rng.choice(["name", "name", "index", "poly", "gradient", "hessian", "multi"])
         stats[kind] += 1
         desc = gen.describe(p)
         D = len(lay["names"])
@@ -83,8 +97,11 @@ def run(report, tier, seed):
                     res = numpoly.derivative(p, arg)
                     vs = [v]
                 elif kind == "multi":
-                    vs = [rng.choice(lay["names"]) for _ in range(2)]
-                    res = numpoly.derivative(p, *[f"q{v}" for v in vs])
+                    # two or three successive variables, by name or by position (positions refer to the names of p)
+                    pos = [rng.randrange(D) for _ in range(rng.choice([2, 2, 3]))]
+                    vs = [lay["names"][j] for j in pos]
+                    by_pos = rng.random() < 0.5
+                    res = numpoly.derivative(p, *(pos if by_pos else [f"q{v}" for v in vs]))
                 elif kind == "gradient":
                     res = numpoly.gradient(p)
                 else:
